@@ -24,11 +24,10 @@ def optNat? : Sx → Option (Option Nat)
   | Sx.atom "N" => some none
   | x => x.nat?.map some
 
-/-- `((kinds ..) (children ..) (desc ..) (ancestry ..) (consumes ..) (feedback (val name) ..) (levels ..))` -/
+/-- `((kinds ..) (children ..) (desc ..) (ancestry ..) (consumes ..) (feedback (val name) ..) (levels ..) [(ranks ..)])` -/
 def graph? (x : Sx) : Option Graph := do
   let xs ← x.list?
-  match xs with
-  | [ks, ch, de, an, co, fb, lv] =>
+  let mk (ks ch de an co fb lv : Sx) (rk : List Nat) : Option Graph := do
     let kinds ← (← ks.list?).mapM kind?
     let ch ← natLists? ch
     let de ← natLists? de
@@ -42,7 +41,11 @@ def graph? (x : Sx) : Option Graph := do
            ancestry := fun n => an.getD n []
            consumes := fun n => co.getD n []
            feedbackTo := fun v => (fb.find? (fun p => p.head? == some v)).bind (fun p => p.getLast?)
-           level := fun n => lv.getD n 0 }
+           level := fun n => lv.getD n 0
+           rank := fun n => rk.getD n n }
+  match xs with
+  | [ks, ch, de, an, co, fb, lv] => mk ks ch de an co fb lv []
+  | [ks, ch, de, an, co, fb, lv, rk] => mk ks ch de an co fb lv (← rk.nats?)
   | _ => none
 
 def op? (x : Sx) : Option Op := do
